@@ -275,6 +275,10 @@ pub struct SourceInner {
     pub shuffle: bool,
     /// ASPA changes are sent as withdraw+announce instead of announce only.
     pub aspa_withdraw_first: bool,
+    /// A diff across several serials is the per-serial deltas one after the
+    /// other (a record may be announced and withdrawn again within one
+    /// answer) instead of the net difference. Order matters then.
+    pub chained_diff: bool,
     pub calls: Vec<SourceCall>,
     pub next_clone: u32,
     pub used_sessions: Vec<u16>,
@@ -312,6 +316,7 @@ impl VersionedSource {
                 decline_diff: 0,
                 shuffle: false,
                 aspa_withdraw_first: false,
+                chained_diff: false,
                 calls: Vec::new(),
                 next_clone: 0,
                 used_sessions: vec![session],
@@ -452,27 +457,35 @@ impl PayloadSource for VersionedSource {
             let res = if declined || from.0 != i.session || !i.retained.contains(&from) {
                 None
             } else {
-                let old = i.history.get(&from).expect("retained state has a set");
-                let new = &i.current;
-                let mut units: Vec<Vec<(Key, Vec<u32>, bool)>> = Vec::new();
-                for (k, v) in old.iter() {
-                    match new.get(k) {
-                        None => units.push(vec![(k.clone(), v.clone(), false)]),
-                        Some(nv) if nv != v => {
-                            if i.aspa_withdraw_first {
-                                units.push(vec![(k.clone(), v.clone(), false), (k.clone(), nv.clone(), true)]);
-                            } else {
-                                units.push(vec![(k.clone(), nv.clone(), true)]);
+                // the states to walk through: from -> (intermediate ones) -> current
+                let at = i.retained.iter().position(|k| *k == from).expect("checked above");
+                let hops: Vec<StateKey> = if i.chained_diff { i.retained[at..].to_vec() } else { vec![from, key] };
+                let mut steps: Vec<Vec<Vec<(Key, Vec<u32>, bool)>>> = Vec::new();
+                for w in hops.windows(2) {
+                    let old = i.history.get(&w[0]).expect("retained state has a set");
+                    let new = i.history.get(&w[1]).expect("retained state has a set");
+                    let mut units: Vec<Vec<(Key, Vec<u32>, bool)>> = Vec::new();
+                    for (k, v) in old.iter() {
+                        match new.get(k) {
+                            None => units.push(vec![(k.clone(), v.clone(), false)]),
+                            Some(nv) if nv != v => {
+                                if i.aspa_withdraw_first {
+                                    units.push(vec![(k.clone(), v.clone(), false), (k.clone(), nv.clone(), true)]);
+                                } else {
+                                    units.push(vec![(k.clone(), nv.clone(), true)]);
+                                }
                             }
+                            _ => {}
                         }
-                        _ => {}
                     }
-                }
-                for (k, v) in new.iter() {
-                    if !old.contains_key(k) {
-                        units.push(vec![(k.clone(), v.clone(), true)]);
+                    for (k, v) in new.iter() {
+                        if !old.contains_key(k) {
+                            units.push(vec![(k.clone(), v.clone(), true)]);
+                        }
                     }
+                    steps.push(units);
                 }
+                let units = steps;
                 Some((key, units))
             };
             (res, i.shuffle)
@@ -490,8 +503,12 @@ impl PayloadSource for VersionedSource {
                 });
                 None
             }
-            Some((key, units)) => {
-                let items = Arc::new(self.order(units, shuffle));
+            Some((key, steps)) => {
+                if steps.len() > 1 {
+                    self.ctx.bump("probe_diff_served_as_chain_of_deltas");
+                }
+                let items: Vec<(Key, Vec<u32>, bool)> = steps.into_iter().flat_map(|units| self.order(units, shuffle)).collect();
+                let items = Arc::new(items);
                 let payloads = items
                     .iter()
                     .map(|(k, v, ann)| (to_payload(k, v), if *ann { Action::Announce } else { Action::Withdraw }))
